@@ -205,7 +205,7 @@ func (c08Prop) Execute(p *Plan, run *Run) any {
 	}
 
 	// Fault-free read of the full file: the reference delivery D.
-	full := readAll(target, openReader(data, pl.Chunks), -1, nil)
+	full := readAllOut(target, pl.Chunks.OutPtr, openReader(data, pl.Chunks), -1, nil)
 	run.Evals++
 	var total int64
 	for _, bl := range c.Blocks {
@@ -283,7 +283,7 @@ func (c08Prop) Execute(p *Plan, run *Run) any {
 		if b < 0 || b > len(data) {
 			continue
 		}
-		out := readAll(target, openReader(data[:b], pl.Chunks), -1, nil)
+		out := readAllOut(target, pl.Chunks.OutPtr, openReader(data[:b], pl.Chunks), -1, nil)
 		run.Evals++
 		run.Faults.Inc("W-crash(b)")
 		var want int64
